@@ -112,7 +112,10 @@ theorem malformed_rejected (e : BEnv) (Γ : Ctx) (cfg : ParserConfig) (c : Class
     ∃ m, parseDocument e Γ cfg c .syntaxError = .error (.parser m) := ⟨_, rfl⟩
 
 
-/-! ## JSON: `JsonParser.parse` / `DictDecoder.decode` -/
+/-! ## JSON: `JsonParser.parse` / `DictDecoder.decode`
+
+State of /repo after ca8f47f: `JsonParser.parse` turns every `ValueError` of `json.load` into
+`ParserError`, `bind_dataclass` rejects non-objects with `ParserError`. -/
 
 /-- the full-strength statement for the JSON side: whatever `json.load` does with the
 bytes and whatever shape the loaded value has, only documented errors come out -/
@@ -120,15 +123,14 @@ def NoLeakJson : Prop :=
   ∀ (e : BEnv) (Γ : Ctx) (cfg : ParserConfig) (fuel : Nat) (c : ClassId) (listOf : Bool) (l : Loaded) (py : String),
     parseJson e Γ cfg fuel c listOf l ≠ .error (.leaked py)
 
-/-- It is false of the code as it stands; one concrete document per leaking site
-(each is replayed on the real code as a known finding):
-`5` → AttributeError, `{"x": {"a": 1}}` (x: Optional[int]) → AssertionError,
+/-- It is still false of the code as it stands; one concrete document per remaining leaking
+site (each is replayed on the real code as a known finding):
+`{"x": {"a": 1}}` (x: Optional[int]) → AssertionError,
 `{"at": 5}` / `{"at": "s"}` (at: xs:anyAttribute) → TypeError / ValueError,
 `{"t": [null]}` (t: tokens) → TypeError, `{"b": ["a"]}` (b wrapped in "items") → TypeError,
 `{"x": {"qname": "q", "type": [1], "value": {}}}` → TypeError (unhashable),
-`[5]` for `list[Doc]` → AttributeError; and what `json.load` itself raises. -/
+and nesting deeper than the interpreter's recursion limit → RecursionError from `json.load`. -/
 theorem no_leak_json_counterexamples :
-    decode Witness.env Witness.jctx {} 16 Witness.Doc false (.int 5) = .error (.leaked "AttributeError") ∧
     decode Witness.env Witness.jctx {} 16 Witness.Doc false (Witness.o [("x", Witness.o [("a", .int 1)])])
       = .error (.leaked "AssertionError") ∧
     decode Witness.env Witness.jctx {} 16 Witness.Doc false (Witness.o [("at", .int 5)]) = .error (.leaked "TypeError") ∧
@@ -138,27 +140,71 @@ theorem no_leak_json_counterexamples :
     decode Witness.env Witness.jctx {} 16 Witness.Doc false
       (Witness.o [("x", Witness.o [("qname", .str ['q']), ("type", .arr [.int 1]), ("value", Witness.o [])])])
       = .error (.leaked "TypeError") ∧
-    decode Witness.env Witness.jctx {} 16 Witness.Doc true (.arr [.int 5]) = .error (.leaked "AttributeError") ∧
-    parseJson Witness.env Witness.jctx {} 16 Witness.Doc false .decodeError = .error (.leaked "JSONDecodeError") ∧
-    parseJson Witness.env Witness.jctx {} 16 Witness.Doc false .unicodeError = .error (.leaked "UnicodeDecodeError") ∧
-    parseJson Witness.env Witness.jctx {} 16 Witness.Doc false .recursionError = .error (.leaked "RecursionError") ∧
-    parseJson Witness.env Witness.jctx {} 16 Witness.Doc false .intLimit = .error (.leaked "ValueError") :=
-  ⟨rfl, rfl, rfl, rfl, rfl, rfl, rfl, rfl, rfl, rfl, rfl, rfl⟩
+    parseJson Witness.env Witness.jctx {} 16 Witness.Doc false .recursionError = .error (.leaked "RecursionError") :=
+  ⟨rfl, rfl, rfl, rfl, rfl, rfl, rfl⟩
 
 theorem no_leak_json_false : ¬ NoLeakJson := fun h =>
-  h Witness.env Witness.jctx {} 16 Witness.Doc false (.value (.int 5)) "AttributeError" rfl
+  h Witness.env Witness.jctx {} 16 Witness.Doc false (.value (Witness.o [("at", .int 5)])) "TypeError" rfl
+
+/-- **json_malformed_rejected.** Text that is not JSON, bytes that are not UTF-8 and integer
+literals beyond the digit limit are reported as `ParserError` (repaired in ca8f47f). -/
+theorem json_malformed_rejected (e : BEnv) (Γ : Ctx) (cfg : ParserConfig) (fuel : Nat) (c : ClassId) (listOf : Bool) :
+    (∃ m, parseJson e Γ cfg fuel c listOf .decodeError = .error (.parser m)) ∧
+    (∃ m, parseJson e Γ cfg fuel c listOf .unicodeError = .error (.parser m)) ∧
+    (∃ m, parseJson e Γ cfg fuel c listOf .intLimit = .error (.parser m)) :=
+  ⟨⟨_, rfl⟩, ⟨_, rfl⟩, ⟨_, rfl⟩⟩
+
+/-- **non_object_rejected.** A document that is not a JSON object (scalar, null, array for a
+class target; object for a `list[class]` target; any non-object item of the array) is
+reported as `ParserError` (repaired in ca8f47f; before: AttributeError). -/
+theorem non_object_rejected (e : BEnv) (Γ : Ctx) (cfg : ParserConfig) (fuel : Nat) (c : ClassId) (data : J)
+    (h : data.isObj = false) :
+    (∃ m, decode e Γ cfg (fuel + 1) c false data = .error (.parser m)) ∧
+    (∃ m, decode e Γ cfg (fuel + 1) c true (.arr [data]) = .error (.parser m)) := by
+  cases data <;> simp [J.isObj] at h <;>
+    exact ⟨⟨_, rfl⟩, ⟨_, rfl⟩⟩
 
 /-- **dict_leak_kinds.** The leaks of `DictDecoder.decode` form a closed list: for every
 universe, config, target and EVERY loaded JSON value the outcome is a value, ParserError,
-ConverterError, XmlContextError (or `unsupported`), or one of AttributeError,
-AssertionError, TypeError, ValueError, KeyError — nothing else, at any nesting depth
-(`bind_best_dataclass` swallows what its candidates raise). -/
+ConverterError, XmlContextError (or `unsupported`), or one of AssertionError, TypeError,
+ValueError, KeyError — nothing else, at any nesting depth (`bind_best_dataclass` swallows
+what its candidates raise).  AttributeError left the list with ca8f47f. -/
 theorem dict_leak_kinds (e : BEnv) (Γ : Ctx) (cfg : ParserConfig) (fuel : Nat) (c : ClassId) (listOf : Bool)
     (data : J) (py : String) (h : decode e Γ cfg fuel c listOf data = .error (.leaked py)) :
     py ∈ dictLeaks := by
   have hc := decode_dclean e Γ cfg fuel c listOf data
   rw [h] at hc
   simpa [DClean, dcleanB, Err.dictSide] using hc
+
+/-- the same for `JsonParser.parse`: the decoder's leaks plus `RecursionError` from `json.load` -/
+theorem json_leak_kinds (e : BEnv) (Γ : Ctx) (cfg : ParserConfig) (fuel : Nat) (c : ClassId) (listOf : Bool)
+    (l : Loaded) (py : String) (h : parseJson e Γ cfg fuel c listOf l = .error (.leaked py)) :
+    py ∈ "RecursionError" :: dictLeaks := by
+  cases l with
+  | value j => exact List.mem_cons_of_mem _ (dict_leak_kinds e Γ cfg fuel c listOf j py h)
+  | recursionError => cases h; simp
+  | decodeError => cases h
+  | unicodeError => cases h
+  | intLimit => cases h
+
+/-- the same without a target class (`decode(data)` → `detect_type`): the leak list does not
+grow, and a document whose first item is not an object is a `ParserError` (ca8f47f; before:
+AttributeError on `data.keys()` / `data[0].keys()`) -/
+theorem dict_auto_leak_kinds (e : BEnv) (Γ : Ctx) (cfg : ParserConfig) (fuel : Nat) (data : J) (py : String)
+    (h : decodeAuto e Γ cfg fuel data = .error (.leaked py)) : py ∈ dictLeaks := by
+  have hc := decodeAuto_dclean e Γ cfg fuel data
+  rw [h] at hc
+  simpa [DClean, dcleanB, Err.dictSide] using hc
+
+theorem detect_type_non_object_rejected (e : BEnv) (Γ : Ctx) (cfg : ParserConfig) (fuel : Nat) (data : J) (rest : List J)
+    (h : data.isObj = false) :
+    (∃ m, decodeAuto e Γ cfg fuel (.arr (data :: rest)) = .error (.parser m)) ∧
+    (data.isArr = false → ∃ m, decodeAuto e Γ cfg fuel data = .error (.parser m)) := by
+  constructor
+  · cases data <;> simp [J.isObj] at h <;> exact ⟨_, rfl⟩
+  · intro ha
+    cases data <;> simp [J.isObj] at h <;> simp [J.isArr] at ha <;>
+      (unfold decodeAuto; split <;> exact ⟨_, rfl⟩)
 
 /-- … and never a SerializerError -/
 theorem dict_no_serializer_error (e : BEnv) (Γ : Ctx) (cfg : ParserConfig) (fuel : Nat) (c : ClassId) (listOf : Bool)
@@ -168,24 +214,28 @@ theorem dict_no_serializer_error (e : BEnv) (Γ : Ctx) (cfg : ParserConfig) (fue
   rw [h] at hc
   cases hc
 
-/-- **no_leak_dict_partial.** A flat document — a JSON object whose members are scalars,
-null or arrays of non-null scalars, and whose key set is not {qname, type, value} — decoded
-into a class without `xs:anyAttribute` and without wrapped list fields never leaks:
-the outcome is an instance, ParserError or ConverterError/XmlContextError. -/
-theorem no_leak_dict_partial (e : BEnv) (Γ : Ctx) (cfg : ParserConfig) (fuel : Nat) (c : ClassId) (data : J)
-    (hd : flatDoc data = true) (hc : plainClass Γ c = true) (py : String) :
-    parseJson e Γ cfg fuel c false (.value data) ≠ .error (.leaked py) :=
-  (decode_flat_clean e Γ cfg fuel c data hd hc).not_leaked py
+/-- **no_leak_dict_partial.** A flat document — anything that is not an object, an object
+whose members are scalars, null or arrays of non-null scalars, or an array of such values —
+decoded into a class (or `list[class]`) without `xs:anyAttribute` and without wrapped list
+fields never leaks.  Compared with the statement before ca8f47f the hypotheses "the document
+is an object", "its key set is not {qname, type, value}" and "the target is not a list" are
+gone; the two that remain are needed (`no_leak_dict_partial_sharp`). -/
+theorem no_leak_dict_partial (e : BEnv) (Γ : Ctx) (cfg : ParserConfig) (fuel : Nat) (c : ClassId) (listOf : Bool)
+    (data : J) (hd : flatTop data = true) (hc : plainClass Γ c = true) (py : String) :
+    parseJson e Γ cfg fuel c listOf (.value data) ≠ .error (.leaked py) :=
+  (decode_flat_clean e Γ cfg fuel c listOf data hd hc).not_leaked py
 
 example :
-    flatDoc (Witness.o [("x", .str "12x".toList), ("t", .arr [.int 1, .str ['a']]), ("zz", .null)]) = true ∧
+    flatTop (Witness.o [("x", .str "12x".toList), ("t", .arr [.int 1, .str ['a']]), ("zz", .null)]) = true ∧
+    flatTop (.int 5) = true ∧
+    flatTop (.arr [.null, Witness.o [("qname", .int 1), ("type", .int 2), ("value", .int 3)]]) = true ∧
     plainClass Witness.jctx Witness.Plain = true ∧ plainClass Witness.jctx Witness.Doc = false :=
-  ⟨by decide, by decide, by decide⟩
+  ⟨by decide, by decide, by decide, by decide, by decide⟩
 
 /-- both hypotheses of `no_leak_dict_partial` are needed: a flat document leaks on the
 class with the `xs:anyAttribute` field, and a non-flat one on the plain class -/
 theorem no_leak_dict_partial_sharp :
-    (flatDoc (Witness.o [("at", .int 5)]) = true ∧
+    (flatTop (Witness.o [("at", .int 5)]) = true ∧
       decode Witness.env Witness.jctx {} 16 Witness.Doc false (Witness.o [("at", .int 5)]) = .error (.leaked "TypeError")) ∧
     (plainClass Witness.jctx Witness.Plain = true ∧
       decode Witness.env Witness.jctx {} 16 Witness.Plain false (Witness.o [("x", Witness.o [])])
